@@ -33,7 +33,7 @@ REL = None
 
 
 def floors(tier):
-    return {"requests": 20000, "repeat_requests_checked": 2000, "fd_grads_compared": 2000, "histories_over_points_one_ulp_apart": 100, "histories_over_points_1e-170_apart": 20, "histories_with_transient_faults": 400, "histories_with_user_relative_step": 300, "solver_runs_logged": 60, "solver_restart_legs_logged": 20, "wrapper_answers_checked_inside_solver_runs": 2000,
+    return {"requests": 20000, "repeat_requests_checked": 2000, "fd_grads_compared": 2000, "histories_over_points_one_ulp_apart": 100, "histories_over_points_1e-170_apart": 20, "histories_with_transient_faults": 400, "histories_with_user_relative_step": 300, "solver_runs_logged": 60, "solver_runs_with_a_step_cap_below_the_resolution_of_x": 10, "solver_restart_legs_logged": 20, "wrapper_answers_checked_inside_solver_runs": 2000,
             "requests_failing_in_the_user_function": 300, "__nontrivial__": 100}
 
 
@@ -441,6 +441,10 @@ def run_solver_log(spec, out):
         x0 = np.clip(x0, lb, ub)
     kw = dict(fun=fun, jac=jac if mode == "callable" else mode, bounds=np.column_stack([lb, ub]), ftol=0.0, gtol=0.0, maxfun=3000,
               maxls=int([1, 2, 5, 20, 20][int(rng.integers(0, 5))]), maxcor=int(rng.integers(1, 8)))
+    if spec["seed"] % 6 == 4:
+        # a user cap on the step so small that every trial point rounds back onto the iterate (every request is then a repeated one)
+        kw["max_steplength"] = float([0.0, 1e-20, 1e-300][spec["seed"] // 6 % 3])
+        out.count("solver_runs_with_a_step_cap_below_the_resolution_of_x")
     if spec.get("user_step") and mode != "callable":
         kw["eps" if spec["user_step"][0] == "eps" else "finite_diff_rel_step"] = float(spec["user_step"][1])  # the user's own differencing step
         out.count("solver_runs_with_user_differencing_step")
